@@ -4,6 +4,7 @@ package c06
 import (
 	"fmt"
 	"os"
+	"time"
 
 	"github.com/goatcms/goatcore/filesystem/filespace/diskfs"
 	"github.com/goatcms/goatcore/filesystem/filespace/memfs"
@@ -110,6 +111,25 @@ func run(c Case) (hx.Verdict, int) {
 	}
 	firstCommitCalls := 0
 	commits := 0
+	// after a failed Commit the cache must stay usable: "a later successful Commit still brings the
+	// remote to that same tree" can only hold if the operations and the Commit that follow return
+	faultFired := false
+	blocked := func(i int, what string) hx.Verdict {
+		return fail(i, "usable-after-failed-commit", fmt.Sprintf("%s, issued after a Commit that failed at remote call %d (%s), did not return within 20 s", what, c.FailAt, ctl.What))
+	}
+	commitGuarded := func() (error, bool) {
+		if !faultFired {
+			return cache.Commit(), true
+		}
+		ch := make(chan error, 1)
+		go func() { ch <- cache.Commit() }()
+		select {
+		case e := <-ch:
+			return e, true
+		case <-time.After(20 * time.Second):
+			return nil, false
+		}
+	}
 	sharedPrefix := map[string]int{}
 	touchedRemote := false
 	remoteIs := func(want *fsmodel.Node, i int, clause, when string) *hx.Verdict {
@@ -131,7 +151,11 @@ func run(c Case) (hx.Verdict, int) {
 		if armed {
 			ctl.FailAt = before + c.FailAt
 		}
-		err := cache.Commit()
+		err, returned := commitGuarded()
+		if !returned {
+			f := blocked(i, "Commit")
+			return &f
+		}
 		ctl.FailAt = -1
 		if commits == 1 {
 			firstCommitCalls = ctl.Count() - before
@@ -143,8 +167,14 @@ func run(c Case) (hx.Verdict, int) {
 				f := fail(i, "fault-unreported", fmt.Sprintf("remote I/O call %d of Commit failed (%s) but Commit returned nil", c.FailAt, ctl.What))
 				return &f
 			}
+			faultFired = true
 			// a later successful Commit still brings the remote to the same tree
-			if err2 := cache.Commit(); err2 != nil {
+			err2, returned := commitGuarded()
+			if !returned {
+				f := blocked(i, "the next Commit")
+				return &f
+			}
+			if err2 != nil {
 				f := fail(i, "recommit-failed", fmt.Sprintf("Commit after a failed Commit (fault at call %d: %s) failed again without any fault: %v", c.FailAt, ctl.What, err2))
 				return &f
 			}
@@ -220,7 +250,18 @@ func run(c Case) (hx.Verdict, int) {
 		if e.Skip {
 			continue
 		}
-		o := b.Run(op)
+		var o fsmodel.Obs
+		if faultFired {
+			ch := make(chan fsmodel.Obs, 1)
+			go func() { ch <- b.Run(op) }()
+			select {
+			case o = <-ch:
+			case <-time.After(20 * time.Second):
+				return blocked(i, op.String()), firstCommitCalls
+			}
+		} else {
+			o = b.Run(op)
+		}
 		b.DropKept()
 		if o.Panic != "" {
 			return fail(i, "panic", fmt.Sprintf("%s panicked: %s", op, o.Panic)), firstCommitCalls
